@@ -224,13 +224,13 @@ Qed.
 (* C04: a binary upload that runs to its end writes to the data connection exactly the bytes the source yields up
    to its first empty read, whatever the pattern of short reads *)
 Theorem upload_exact blk chunks cb ev r cb' :
-  data_send TBinary blk chunks cb = (ev, r, cb') -> r = PDone -> net_out_bytes ev = concat chunks.
+  data_send TBinary blk chunks cb = (ev, r, cb') -> r = PDone -> net_out_bytes ev = concat (upto_empty chunks).
 Proof.
   intros H Hr. unfold data_send in H.
   destruct (start_events cb) as [[ev0 c] cb1] eqn:S0.
   destruct (start_events_quiet _ _ _ _ S0) as (_ & _ & _ & Q4 & _).
   subst r. destruct c; [inversion H|].
-  cbn [upload_blocks] in H. destruct (send_loop chunks cb1) as [[ev1 r1] cb2] eqn:R.
+  cbn [upload_blocks] in H. destruct (send_loop (upto_empty chunks) cb1) as [[ev1 r1] cb2] eqn:R.
   inversion H; subst. destruct (send_loop_spec _ _ _ _ _ R) as ((k & K1 & K2) & _).
   rewrite !net_out_app, Q4, K1, (K2 eq_refl), firstn_all. destruct cb; cbn; rewrite ?app_nil_r; reflexivity.
 Qed.
